@@ -198,9 +198,18 @@ func compileTrouble(r *drv.Run, res *wire.Result, c *wire.Case, src string, reje
 }
 
 // runTrouble classifies a failed run. strict: budget/guard trips are violations (C09/C10).
+// stuck reports a run the step monitor ended because one instruction was executed over and over with
+// unchanged stack depths: no progress, whatever the step budget (a violation of C10 wherever it is seen).
+func stuck(run *wire.Run) bool { return strings.HasPrefix(run.Budget, "stuck") }
+
 func runTrouble(r *drv.Run, run *wire.Run, c *wire.Case, src string, text []byte, strict bool) bool {
 	if run.Panic != nil {
 		r.Violate(&drv.Violation{Sig: "run-panic:" + run.Panic.Frame, Panic: run.Panic.Msg, Frame: run.Panic.Frame, Src: src, Text: string(text), Case: c})
+		return true
+	}
+	if stuck(run) {
+		// never a matter of cost: the run would not have returned at all
+		r.Violate(&drv.Violation{Sig: "no-progress-spin", Src: src, Text: string(text), Case: c, Detail: map[string]any{"monitor": run.Budget}})
 		return true
 	}
 	if run.Budget != "" {
